@@ -48,8 +48,12 @@ def splitOps : List String → List String → List (List String)
   | [], cur => if cur.isEmpty then [] else [cur.reverse]
   | t :: rest, cur => if t == ";" then (if cur.isEmpty then splitOps rest [] else cur.reverse :: splitOps rest []) else splitOps rest (t :: cur)
 
-def stepOp (recordLog : WExpr → WMeta → List String) (e : WExpr) (mask : Nat) (s : St) : List String → Option (St × String)
+def stepOp (recordLog : WExpr → WMeta → List String) (nestedToo : Bool) (e : WExpr) (mask : Nat) (s : St) : List String → Option (St × String)
   | ["ev", l, t, _] => do pure (s, showLog (recordLog e ⟨← l.toNat?, ← t.toNat?⟩))
+  | ["ne", l, t, l2, t2] => do            -- the outer event's value emits the inner event while the outer is being formatted
+    let outer : WMeta := ⟨← l.toNat?, ← t.toNat?⟩
+    let inner : WMeta := ⟨← l2.toNat?, ← t2.toNat?⟩
+    pure (s, showLog ((if nestedToo then recordLog e inner else []) ++ recordLog e outer))
   | ["pe", _, _] => some (s, "x:panic")           -- formatting panics before any writer is asked
   | ["sp", k, l, t, _, _] => do
     let m : WMeta := ⟨← l.toNat?, ← t.toNat?⟩
@@ -77,14 +81,14 @@ def stepOp (recordLog : WExpr → WMeta → List String) (e : WExpr) (mask : Nat
     pure (s, showLog (((List.replicate cnt one).flatten).mergeSort (· ≤ ·)))
   | _ => none
 
-def runOps (rl : WExpr → WMeta → List String) (e : WExpr) (mask : Nat) : St → List (List String) → Option (List String)
+def runOps (rl : WExpr → WMeta → List String) (nt : Bool) (e : WExpr) (mask : Nat) : St → List (List String) → Option (List String)
   | _, [] => some []
   | s, op :: ops => do
-    let (s', o) ← stepOp rl e mask s op
-    let rest ← runOps rl e mask s' ops
+    let (s', o) ← stepOp rl nt e mask s op
+    let rest ← runOps rl nt e mask s' ops
     pure (o :: rest)
 
-def modelWith (rl : WExpr → WMeta → List String) (toks : List String) : String :=
+def modelWith (rl : WExpr → WMeta → List String) (nt : Bool) (toks : List String) : String :=
   let cfg := toks.takeWhile (· ≠ ";;")
   let r1 := (toks.dropWhile (· ≠ ";;")).drop 1
   let wt := r1.takeWhile (· ≠ ";;")
@@ -93,12 +97,12 @@ def modelWith (rl : WExpr → WMeta → List String) (toks : List String) : Stri
   match parseW (wt.length + 1) wt with
   | some (e, []) =>
     if !WF e then "bad-case ill-typed-or-else" else
-    match runOps rl e mask { spans := [] } (splitOps ops []) with
+    match runOps rl nt e mask { spans := [] } (splitOps ops []) with
     | some outs => " ".intercalate outs
     | none => "bad-case"
   | _ => "bad-case"
 
-def model (toks : List String) : String := modelWith recordLog toks
-def spec (toks : List String) : String := modelWith specRecord toks
+def model (toks : List String) : String := modelWith recordLog TM.Gen.WriterRouting.onEventBusyBufferFallsBack toks
+def spec (toks : List String) : String := modelWith specRecord true toks
 
 end TM.WritersDriver
